@@ -32,6 +32,11 @@ CHECKS = {
          "On the program spaces of C04 (all 361 ordered operator pairs in both groupings, all three-operator trees, unary x binary x postfix mixes, every statement template in every block/non-block body combination) the S-expression extracted from the typed AST only through public accessors (BinExpr::lhs/rhs/op_kind, IfStmt::true_body/false_body, ForStmt, Gate::angle_params/qubit_params, Def, RangeExpr::start_step_stop, modifiers, arguments, operands ...) must equal the model's, role by role. The precedence table is data in the harness and self-tested.",
          "Programs the parser rejects are skipped (C04's). Two defects (precedence table, if/else accessors) were repaired by fix: commits; two are recorded as known findings.",
          "DESIGN.md section 7, C05"),
+ "C07": ("model_checking",
+         "exhaustive exploration of scope/declaration/use operation histories rendered as programs and executed by the real analyser, compared reference by reference with a reference scope stack",
+         "All well-formed histories of <= 5 (thorough 6) operations over {declare int/const/qubit x, use x, assign x, gate-call x, open if/else/while/for x/case/default/gate(x)/def(x), close} for three two-name pools (user names; pi and the library gate h after include; the built-in U) are rendered as programs; the graph is walked in source order and every symbol reference is compared with the reference scope machine: resolved iff visible, same symbol iff same declaration, symbol name equals the identifier, unresolved uses marked MissingBinding, typed Undefined and reported exactly once on the identifier, duplicates marked AlreadyBound and reported exactly once with the name, scope stack back at depth 1. Reports reference states, transitions and traces; every trace runs on the implementation.",
+         "Readings where the statement is silent are listed in the evidence assumptions. Hook oq3_verif for the depth.",
+         "DESIGN.md section 7, C07"),
  "C11": ("exploration",
          "bounded exhaustive splicing of malformed lexemes at every position of every short token sequence; gating relations checked on every token sequence through the full pipeline",
          "35 malformed spellings in 8 classes (unterminated strings, bit strings and comments, base prefixes without digits, exponents without digits, malformed version headers, identifiers with forbidden characters) are spliced at every gap of every sequence of <= 2 tokens over the full token alphabet; the lexical diagnostic must sit on the spliced lexeme. Every sequence of <= 3 tokens (with malformed variants) goes through parse_check_lex (tree iff no lexical diagnostic; diagnostics all lexical or all syntactic) and through parse_source_string (any_syntax_errors iff a syntax diagnostic; then empty program and no semantic diagnostics; otherwise analysis ran).",
